@@ -61,6 +61,16 @@ CHECKS = {
          "Every configuration of the stated finite menus is enumerated: leaf hash over the full product of boundary numbers and strings, node hash over all ordered pairs (incl. equal/adjacent/all-zero/all-ff) in both argument orders, output roots, L2 denoms, bridge addresses, root-from-proof for trees of 1-9 leaves at every position; each byte-slice input in all 3^n memory layouts (exact capacity / spare capacity with sentinel / sub-slices of one buffer). Oracle: repository value = independent implementation (own SHA3, pinned to Python hashlib vectors) = pinned vectors; result identical in every layout; every byte of every caller backing array unchanged; FinalizeTokenWithdrawal gives the same verdict for a valid claim under every layout of proofs/storage root/block hash.",
          "Trusted: Go toolchain; the pinned vectors (generated once by vectors/gen_vectors.py with hashlib). Bounded: boundary values represent the 64-bit ranges; proof lists up to 4 elements.",
          "DESIGN.md §6 C17"),
+ "C04": ("model_checking",
+         "exhaustive enumeration of withdrawal trees through both chains' real handlers + independent tree builder",
+         "Every withdrawal tree of the stated menus is run through both chains: withdrawals are produced only by the real L2 handlers (user InitiateTokenWithdrawal and the refund path of FinalizeTokenDeposit), parsed from events, committed with the independent sorted-pair tree builder (own SHA3), proposed and finalized on L1, and every leaf is claimed. Enumerated: all single descriptors of kind x amount {1, 2^63-1, 2^63, 2^64-1, 2^64, 2^64+1, 2^128} x denom {short, 128-char, ibc/...} x recipient {lower, upper-case bech32, fresh account}; all trees of size 2-3 (quick) / 2-4 (thorough) over a 12-entry menu; one covering tree per size up to 17. Oracle: every recorded withdrawal with a valid L1 recipient is paid exactly its amount; recording an amount that cannot be committed to a leaf, or a refund to an unpayable recipient, is a violation.",
+         "Trusted: as C08. Bounded: menus as listed; holdings above one deposit are produced by minting on L2 and funding the escrow.",
+         "DESIGN.md §6 C04"),
+ "C08": ("model_checking",
+         "explicit-state IDDFS over two chains connected by parsed events + drain from every state",
+         "Exhaustive enumeration of all interleavings of user deposits (credited, refunded for a malformed recipient, refunded after a failing hook), L2 transfers and withdrawals, relays (incl. duplicates and delays), proposals built from recorded withdrawals, challenges with re-proposal, time advances and claims, over two denoms; in every state escrow_L1 = supply_L2 + pending deposits + unpaid recorded withdrawals per denom; from every distinct state a deterministic drain must make every claim succeed exactly once (second claim fails), escrow = L2 supply, users' combined holdings = initial.",
+         "Trusted: Go toolchain, cosmos-sdk store/auth/bank, world construction, faithful-relayer harness (queues only from parsed events), independent tree builder. Bounded: depth 6 (quick) / 8 (thorough).",
+         "DESIGN.md §6 C08"),
 }
 NOT_YET = {}
 
